@@ -14,7 +14,7 @@ from verif.contracts.common import (Obligation, Result, Sym, sym_call, Interp, R
                                     PROVED, REFUTED, UNDECIDED, ERROR, is_sym, isc, seed, witness_arrays)
 
 LEVEL = 'other'
-EXPECTED_MIN = {'quick': 36, 'thorough': 37}
+EXPECTED_MIN = {'quick': 39, 'thorough': 40}
 EXPLANATION = ('PROVED: the custom tangent rules of safe_arccos / safe_arcsin have a denominator bounded away from 0 for ALL x and equal the analytic derivative for |x| <= 1-1e-7; the '
                'forward-mode derivative programs of safe_norm, normalize, quat_to_3x3, orthogonals, quat_rot_axis, ang_to_quat / quat_mul_ang, signed_angle (unit references perpendicular to the axis), from_to (w >= 1e-6), quat_to_euler (off the gimbal lock), com.inv_inertia, the spring and positional integrator steps are defined (no division by zero, no negative radicand) for '
                'all inputs in their preconditions, singular inputs included.  BOUNDED (not proof): jax.grad of a weighted state sum after init + 1-3 steps vs central differences in '
@@ -449,6 +449,78 @@ def _native_contact_rest(pipeline, xml):
   return {'reproduced': bad, 'pipeline': pipeline, 'gradient': [np.asarray(a).tolist() for a in g]}
 
 
+_RULE_XML = ('<mujoco><compiler angle="degree"/><option timestep="0.002" iterations="4"/><worldbody><geom type="plane" size="5 5 .1"/><body pos="0 0 0.3"><freejoint/><geom size="0.1"/>'
+             '<body pos="0 0 0.2"><joint type="hinge" axis="0 1 0" range="-30 30" limited="true"/><geom type="capsule" size="0.05 0.2" pos="0.2 0 0"/>'
+             '<body pos="0.4 0 0"><joint type="hinge" axis="0 1 0" range="-30 30" limited="true"/><joint type="hinge" axis="1 0 0" range="-30 30" limited="true"/>'
+             '<geom type="capsule" size="0.05 0.2" pos="0.2 0 0"/></body></body></body></worldbody></mujoco>')
+# custom derivative rules whose rule is itself under contract (brax.math: C03/safe_arccos, C03/safe_arcsin obligations) or an exact library rule (jax.nn.relu: derivative 1[x > 0])
+_RULES_OK = ('safe_arccos', 'safe_arcsin', 'relu')
+
+
+def derivative_rules(pipeline):
+  """jax.grad differentiates the program that runs only if no foreign custom derivative rule sits in it (e.g. implicit differentiation of an iterative solver returns the derivative of the
+  converged fixed point, not of the iterations the step executes): every custom_jvp / custom_vjp equation of the traced step must be one of the rules under contract"""
+  def run():
+    import importlib
+    from brax.io import mjcf
+    with jax.enable_x64(False):
+      sys = mjcf.loads(_RULE_XML)
+      pl = importlib.import_module('brax.%s.pipeline' % pipeline)
+      st = pl.init(sys, sys.init_q, jp.zeros(sys.qd_size()))
+      jx = jax.make_jaxpr(lambda s_: pl.step(sys, s_, jp.zeros(0)))(st)
+    found = set()
+
+    def walk(j):
+      for e in j.eqns:
+        if e.primitive.name.startswith(('custom_jvp', 'custom_vjp', 'custom_lin')):
+          cj_ = e.params.get('call_jaxpr') or e.params.get('fun_jaxpr')
+          inner = getattr(cj_, 'jaxpr', cj_)
+          di = getattr(inner, 'debug_info', None)
+          found.add((e.primitive.name, str(getattr(di, 'func_name', None) or getattr(di, 'func_src_info', di)).split(' ')[0]))
+        for v in e.params.values():
+          for x in (v if isinstance(v, (list, tuple)) else [v]):
+            if hasattr(x, 'jaxpr'):
+              walk(x.jaxpr if hasattr(x.jaxpr, 'eqns') else x.jaxpr.jaxpr)
+            elif hasattr(x, 'eqns'):
+              walk(x)
+    walk(jx.jaxpr)
+    bad = sorted(f for f in found if f[0].startswith('custom_vjp') or f[1] not in _RULES_OK)
+    if bad:
+      return Result(REFUTED, '%s.pipeline.step contains custom derivative rules that are not under contract: %s' % (pipeline, bad), witness={'rules': [list(b) for b in bad]}, replay=_native_rules(pipeline))
+    return Result(PROVED, 'custom derivative rules in the traced step (limits, contacts, 3 link types): %s -- all under contract' % sorted(found), stats={'rules': len(found), 'eqns': len(jx.jaxpr.eqns)})
+  return Obligation('C03/%s.pipeline.step/derivative_rules' % pipeline, 'brax.%s.pipeline:step' % pipeline,
+                    'the traced step (free root, hinge stack with limits, ground contact, solver iterations = 4) contains no custom_vjp rule and no custom_jvp rule other than brax.math.safe_arccos / '
+                    'safe_arcsin (their tangent rules are C03 obligations) and jax.nn.relu: reverse- and forward-mode derivatives are those of the computation the step executes', run,
+                    backend='abstract-interp', budget=300)
+
+
+def _native_rules(pipeline):
+  """native: jax.grad vs central differences through 3 steps with both joints held beyond their limits (the constraint solver is active on every step), solver iterations = 4"""
+  import importlib
+  from brax.io import mjcf
+  xml = ('<mujoco><compiler angle="degree"/><option timestep="0.002" iterations="4"/><worldbody><body pos="0 0 1"><joint type="hinge" axis="0 1 0" range="-30 30" limited="true"/>'
+         '<geom type="capsule" size="0.05 0.2" pos="0.2 0 0"/><body pos="0.4 0 0"><joint type="hinge" axis="0 1 0" range="-30 30" limited="true"/><geom type="capsule" size="0.05 0.2" pos="0.2 0 0"/>'
+         '</body></body></worldbody></mujoco>')
+  with jax.enable_x64(True):
+    sys = mjcf.loads(xml)
+    pl = importlib.import_module('brax.%s.pipeline' % pipeline)
+
+    def loss(q, qd):
+      st = pl.init(sys, q, qd)
+      for _ in range(3):
+        st = pl.step(sys, st, jp.zeros(0))
+      return jp.sum(st.q * jp.array([1.0, -0.7])) + jp.sum(st.qd * jp.array([0.3, 0.5]))
+    q0, qd0 = jp.array([0.7, 0.7]), jp.array([0.1, -0.2])
+    try:
+      g = np.asarray(jax.grad(loss)(q0, qd0))
+    except Exception as e:      # noqa: BLE001
+      return {'reproduced': True, 'error': '%s: %s' % (type(e).__name__, str(e)[:200])}
+    h = 1e-6
+    fd = np.array([(float(loss(q0.at[i].add(h), qd0)) - float(loss(q0.at[i].add(-h), qd0))) / (2 * h) for i in range(2)])
+  err = float(np.abs(g - fd).max() / max(1e-9, np.abs(fd).max()))
+  return {'reproduced': err > 1e-4, 'grad': g.tolist(), 'central_differences': fd.tolist(), 'relative_error': err, 'pipeline': pipeline, 'q0': [0.7, 0.7]}
+
+
 def _native_grad_helper(which):
   from brax import math
   bad = []
@@ -607,6 +679,7 @@ def obligations(tier):
   for pl_ in ('spring', 'positional'):
     for gap_ in (0.4, 0.0, -0.01):
       obs.append(contact_rest_defined(pl_, gap_))
+  obs += [derivative_rules(pl_) for pl_ in ('generalized', 'spring', 'positional')]
   for w_ in WORDS:
     obs.append(zero_angle_defined(w_, 'xyz'))
   for w_ in ('sss', 'hhh', 'shs', 'hh', 'hs'):
